@@ -15,7 +15,10 @@ static Op fault_op(Rng& rng, const std::string& name, const std::string& ext) {
   std::string k = kinds[rng.below(sizeof kinds / sizeof kinds[0])];
   // record-structured files (basis, settings): losing, repeating or corrupting one record is the fault that keeps the file parseable
   if ((ext == ".bas" || ext == ".set") && rng.chance(0.5)) k = rng.pick({std::string("dupline"), std::string("dropline"), std::string("dupline"), std::string("dropline"), std::string("setbyte")});
+  // bit rot inside one record of a basis file: the status indicator turns into another valid one
+  if (ext == ".bas" && rng.chance(0.25)) k = "basrec";
   f.set("fkind", k); f.seti("a", (long)rng.below(1 << 20));
+  if (k == "basrec") f.seti("b", rng.range(0, 3));
   if (k == "flipbit") f.seti("b", rng.range(0, 7));
   if (k == "setbyte") f.seti("b", rng.pick({0, 9, 10, 13, 32, 45, 46, 58, 60, 61, 62, 43, 255, 69, 101, 47}));
   if (k == "longtoken") { f.seti("b", rng.pick({200, 300, 8190, 8192, 8193, 9000, 20000})); f.seti("c", rng.pick({(int)'x', (int)'1', (int)'-', (int)'e', (int)'9'})); }
